@@ -123,12 +123,8 @@ class ArrayType(per.ArrayType):
                 encoder.append_bit(0)
             else:
                 encoder.append_bit(1)
-                encoder.append_length_determinant(len(data))
 
-                for entry in data:
-                    self.element_type.encode(entry, encoder)
-
-                return
+                return self.encode_unbound(data, encoder)
 
         if self.number_of_bits is None:
             return self.encode_unbound(data, encoder)
@@ -146,11 +142,9 @@ class ArrayType(per.ArrayType):
             bit = decoder.read_bit()
 
             if bit:
-                length = decoder.read_length_determinant()
+                return self.decode_unbound(decoder)
 
-        if length is not None:
-            pass
-        elif self.number_of_bits is None:
+        if self.number_of_bits is None:
             return self.decode_unbound(decoder)
         else:
             length = self.minimum
@@ -286,11 +280,8 @@ class OctetString(per.OctetString):
                 encoder.append_bit(0)
             else:
                 encoder.append_bit(1)
-                encoder.align()
-                encoder.append_length_determinant(len(data))
-                encoder.append_bytes(data)
 
-                return
+                return self.encode_unbound(data, encoder)
 
         if self.number_of_bits is None:
             return self.encode_unbound(data, encoder)
@@ -305,9 +296,7 @@ class OctetString(per.OctetString):
             bit = decoder.read_bit()
 
             if bit:
-                length = decoder.read_length_determinant()
-
-                return decoder.read_bytes(length)
+                return self.decode_unbound(decoder)
 
         if self.number_of_bits is None:
             return self.decode_unbound(decoder)
